@@ -57,6 +57,15 @@ func Corpus() []*Scenario {
 		{Name: "class/after-append-resend", Brokers: 1, Partitions: 1, RetryMax: 2, FlushMsgs: 2, FlushFreqMs: 300,
 			Msgs:   []MsgSpec{{ID: 1, Partition: 0}, {ID: 2, Partition: 0}},
 			Script: []Fault{ans(pAfterAppend)}},
+		// one answer carries a retriable verdict for an APPENDED batch of partition 0 and a fatal one for partition 1: the
+		// error event of message 2 bumps the epoch, then retryBatch re-sends [1]; the re-sent batch must still be
+		// (epoch 0, sequence 0) so that the broker recognises it (adversary change C05-12: relabelled with the new epoch)
+		{Name: "class/whole-batch-resend-after-bump", Brokers: 1, Partitions: 2, RetryMax: 2, FlushMsgs: 2, FlushFreqMs: 300,
+			Msgs:   []MsgSpec{{ID: 1, Partition: 0}, {ID: 2, Partition: 1}},
+			Script: []Fault{ans(pAfterAppend, pFatal)}},
+		{Name: "class/whole-batch-resend-after-bump-3", Brokers: 1, Partitions: 3, RetryMax: 3, FlushMsgs: 4, FlushFreqMs: 300,
+			Msgs:   []MsgSpec{{ID: 1, Partition: 0}, {ID: 2, Partition: 0}, {ID: 3, Partition: 2}, {ID: 4, Partition: 1}},
+			Script: []Fault{ans(pAfterAppend, pFatal, pRetriable)}},
 		{Name: "class/retriable-then-ok", Brokers: 1, Partitions: 1, RetryMax: 2, FlushMsgs: 2, FlushFreqMs: 300,
 			Msgs:   []MsgSpec{{ID: 1, Partition: 0}, {ID: 2, Partition: 0}},
 			Script: []Fault{ans(pRetriable), ans(pRetriable)}},
